@@ -157,7 +157,8 @@ NickForce(n) ==
 MeJoin(c, others, t, k) ==
   /\ phase = "up" /\ c \notin On /\ trk /\ Step
   /\ LET m == [n \in {nick[u] : u \in DOMAIN others} \cup {snick} |->
-                 IF n = snick THEN {} ELSE others[UserOf(n)]]
+                 \* a client that creates the channel is made its operator
+                 IF n = snick THEN (IF DOMAIN others = {} THEN {"o"} ELSE {}) ELSE others[UserOf(n)]]
          names == JoinWith(SetToSeq({Prefix(m[n]) \o n : n \in DOMAIN m}), " ")
      IN /\ mem' = Put(mem, c, m)
         /\ kn' = Put(kn, c, [n \in DOMAIN m |-> Shown(m[n])])
@@ -172,6 +173,15 @@ MeJoin(c, others, t, k) ==
                 \o <<Srv \o " 353 " \o snick \o " = " \o c \o " :" \o names, Srv \o " 366 " \o snick \o " " \o c \o " :End of /NAMES list.">>,
               <<"MODE " \o c, "WHO " \o c>>)
   /\ UNCHANGED <<phase, tried, snick, nick, uh, jn, pendNick, trk>>
+
+\* a NAMES reply at any later time (the user asked for it): the highest privilege of every member is shown again
+NamesRefresh(c) ==
+  /\ c \in On /\ Step
+  /\ kn' = [kn EXCEPT ![c] = [n \in DOMAIN @ |-> @[n] \cup Shown(mem[c][n])]]
+  /\ Op("namesrefresh",
+        <<Srv \o " 353 " \o snick \o " = " \o c \o " :" \o JoinWith(SetToSeq({Prefix(mem[c][n]) \o n : n \in NicksOf(c)}), " "),
+          Srv \o " 366 " \o snick \o " " \o c \o " :End of /NAMES list.">>, <<>>)
+  /\ UNCHANGED <<phase, tried, snick, nick, mem, uh, jn, topic, ktopic, key, kkey, lim, klim, flags, kflags, pendMode, pendWho, pendNick, trk>>
 
 \* the server answers MODE c with 324
 Reply324(c) ==
@@ -322,7 +332,7 @@ Next ==
   \/ \E n \in MyNicks : ClientNick(n) \/ NickForce(n)
   \/ \E c \in Chans, S \in SUBSET Users : \E ps \in [S -> PrivSets] :
         MeJoin(c, ps, IF c = "#x" THEN "a topic" ELSE "", IF c = "#x" THEN "" ELSE "sekrit")
-  \/ \E c \in Chans : Reply324(c) \/ ReplyWho(c) \/ MePart(c)
+  \/ \E c \in Chans : Reply324(c) \/ ReplyWho(c) \/ MePart(c) \/ NamesRefresh(c)
   \/ \E u \in Users, c \in Chans : OtherJoin(u, c) \/ OtherPart(u, c)
   \/ \E u \in Users : OtherQuit(u)
   \/ \E u \in Users, n \in NickPool : OtherNick(u, n) \/ HiddenNick(u, n)
